@@ -20,10 +20,15 @@ def dispatch : Sexp → Except String Sexp
   | .list [.atom "key.toPath", .str n] => .ok (.str (ofChars (Path.toPath (chars n))))
   | .list [.atom "isRefUrl", .str u] => .ok (.atom (if Path.isRefUrl (chars u) then "true" else "false"))
   | .list [.atom "graph.history", .str ext, .list (.atom "import" :: imp), .list (.atom "steps" :: steps)] =>
-    GraphOps.history ext imp steps
+    GraphOps.history [] ext imp steps
+  | .list [.atom "graph.history", .str ext, .list (.atom "import" :: imp), .list (.atom "steps" :: steps), .list (.atom "parts" :: ps)] =>
+    GraphOps.history (ps.filterMap fun p => match p with | .atom a => some a | _ => none) ext imp steps
   | .list [.atom "arena.wf", .list (.atom "arena" :: nodes), .list (.atom "keys" :: keys)] =>
     GraphOps.arenaWf nodes keys
   | .list [.atom "arena.nav", .list (.atom "arena" :: nodes)] => GraphOps.arenaNav nodes
+  | .list [.atom "graph.squash", .str ext, .list (.atom "import" :: imp), .list (.atom "steps" :: steps), .str key, .atom d] =>
+    GraphOps.squashOp ext imp steps key (d.toNat?.getD 0)
+  | .list (.atom "search.sort" :: .atom e :: entries) => GraphOps.searchSort (e == "true") entries
   | other => .error s!"unknown request {other.toStr.take 80}"
 
 partial def loop (h : IO.FS.Stream) (out : IO.FS.Stream) : IO Unit := do
